@@ -37,6 +37,10 @@ def cases(tier):
                 out.append({"fn": fn, "dim": dim, "order": order})
         out.append({"fn": "reference_cell_corners", "dim": dim})
     out.append({"fn": "default-rules"})
+    # the rule each L1 mode actually applies inside transport_density, observed through its output
+    for dim in (1, 2, 3):
+        for mode in ("RAVIART_THOMAS", "CONSTANT_SUBCELL_PROJECTION", "CONSTANT_CELL_PROJECTION"):
+            out.append({"fn": "rule-in-use", "dim": dim, "mode": mode})
     return out
 
 
@@ -68,6 +72,45 @@ def run_case(case, r):
                     r.fail(f"C15/default-rules/dim={dim},order={order}", "the rule selected by default must be offered")
         return
     dim = case["dim"]
+    if fn == "rule-in-use":
+        # A face flux that is constant (resp. linear) along one axis gives, in the cells away from the
+        # boundary, an RT0 field that is constant (resp. linear with fixed sign) in the cell: every rule
+        # that integrates constants and linear functions exactly returns |u| (resp. the cell mean).
+        import darsia.measure.wasserstein as W
+
+        mode = case["mode"]
+        shape = (5,) if dim == 1 else ((4, 3) if dim == 2 else (4, 3, 2))
+        vs = [0.5, 2.0, 0.25][:dim]
+        grid = darsia.Grid(shape, vs)
+        obj = W.WassersteinDistanceNewton(grid, None, {"l1_mode": getattr(W.L1Mode, mode)})
+        cell = f"C15/rule-in-use/{mode}/dim={dim}"
+        r.nontriv((fn, dim, mode))
+        ci = np.asarray(grid.cell_index)
+        for d in range(dim):
+            if shape[d] < 3:
+                continue
+            faces = np.asarray(grid.faces[d], dtype=int)
+            conn = np.asarray(grid.connectivity)
+            pos = {int(ci[idx]): idx for idx in np.ndindex(*shape)}
+            for kind in ("constant", "linear"):
+                flux = np.zeros(grid.num_faces)
+                for f in faces:
+                    lower = pos[int(conn[f, 0])][d]  # face between layers `lower` and `lower + 1`
+                    flux[f] = 1.0 if kind == "constant" else float(lower + 1)
+                dens = obj.transport_density(flux, weighted=False, flatten=False)
+                ok = True
+                for idx in np.ndindex(*shape):
+                    if 1 <= idx[d] <= shape[d] - 2:
+                        # lower face value idx[d], upper face value idx[d] + 1 (linear); 1 and 1 (constant)
+                        want = 1.0 if kind == "constant" else idx[d] + 0.5
+                        if abs(dens[idx] - want) > 1e-13 * max(1.0, want):
+                            ok = False
+                            r.fail(cell + f"/{kind}", "the rule applied by transport_density integrates constants and linear functions exactly (cell density of a constant / linear flux)", axis=d, cell_index=idx, got=float(dens[idx]), want=want)
+                            break
+                if ok:
+                    r.ok()
+        r.outcome((fn, dim, mode))
+        return
     if fn == "reference_cell_corners":
         pts, w = q.reference_cell_corners(dim)
         cell = f"C15/corners/dim={dim}"
